@@ -154,20 +154,24 @@ def make_config(root: str, handlers: str = "default", cachetime: int = 0, **over
     return config
 
 
-_mime_inited = False
+_mime_inited = None
 
 
 def init_mime(config):
-    """Run the real init_mimetypes once per process (it mutates module tables)."""
+    """Run the real init_mimetypes (it mutates module tables) whenever the
+    MIME-related configuration differs from the one last initialised."""
     global _mime_inited
-    if not _mime_inited:
+    key = (config.get("pygopherd", "mimetypes"), config.get("pygopherd", "encoding"))
+    if _mime_inited != key:
         old = logger.log if hasattr(logger, "log") else None
         logger.log = lambda m: None
         pygopherd.fileext.typemap.clear()
+        mimetypes.encodings_map.clear()
+        mimetypes.encodings_map.update({".gz": "gzip", ".Z": "compress", ".bz2": "bzip2", ".xz": "xz", ".br": "br"})  # Python's defaults
         initialization.init_mimetypes(config)
         if old is not None:
             logger.log = old
-        _mime_inited = True
+        _mime_inited = key
 
 
 def reset_lazies():
